@@ -2,6 +2,7 @@ package main
 
 import (
 	"fmt"
+	"go/types"
 	"strings"
 
 	"golang.org/x/tools/go/ssa"
@@ -155,6 +156,8 @@ func runC04(c *Check) {
 	rulePersistedStateLoadable(c, p, "C04-R6")
 	c.Doc("C04-R7", "error discipline: in the block package and the store, no error returned by the store, the datastore, the executor, the sequencer or the DA layer is discarded (a discarded error of a durable write lets the step continue as if it had been written).")
 	ruleNoDroppedLayerErrors(c, p, "C04-R7", []string{rootPath + "/block", storePkg})
+	ruleVerifyHookAdjacency(c, p, "C04-R8")
+	rulePublisherSeedsEmptyStore(c, p, "C04-R9")
 }
 
 func runC05(c *Check) {
@@ -243,6 +246,7 @@ func runC05(c *Check) {
 	ruleRestartReconciliation(c, p, "C05-R2")
 	ruleReexecutionAccepted(c)
 	rulePersistedStateLoadable(c, p, "C05-R5")
+	ruleMarksAfterItems(c, p, "C05-R6")
 }
 
 // ruleReexecutionAccepted (C05-R4): the apply step executes a block before it records the new
@@ -768,4 +772,196 @@ func ruleNoDroppedLayerErrors(c *Check, p *Prog, rule string, pkgs []string) {
 		c.OK(rule, shortName(k)+" ⟂ no-layer-error-discarded", "", "", fmt.Sprintf("%d calls of store / datastore / executor / sequencer / DA methods returning an error; the error is used at every one not reported", perPkg[k]), true)
 	}
 	c.MinInstances(rule, len(pkgs))
+}
+
+// ruleMarksAfterItems (C05-R6 / C02-R10): the sync loop refuses every event whose hash is marked
+// "seen", trusting that the item is in the cache. On disk the marks and the items are separate
+// files, each replaced atomically, and the loader tolerates a missing file. The file of marks is
+// therefore written only after the files of the items were written successfully: a save cut short
+// between the files (shutdown grace period over, disk full) leaves items without marks — harmless
+// — never a mark without its item, which would be refused on every redelivery for good.
+func ruleMarksAfterItems(c *Check, p *Prog, rule string) {
+	c.Doc(rule, "EO: the cache saver writes the file of seen-marks only after every file of cached items was written successfully (a mark never reaches disk without the item it stands for).")
+	n := 0
+	for _, fn := range p.GenericReps("(*" + rootPath + "/pkg/cache.Cache[_]).SaveToDisk") {
+		g := BuildECFG(p, fn, ExpandOpts{MaxDepth: 0})
+		c.NoteGraph(g)
+		// the writes, by the kind of map they persist: items map[_]*T, marks map[string]bool
+		kindOf := func(nd *Node) string {
+			cc := CallCommonOf(nd)
+			if cc == nil || cc.StaticCallee() == nil || !p.InRepo(cc.StaticCallee()) || len(cc.Args) < 2 {
+				return ""
+			}
+			mt, ok := cc.Args[1].Type().Underlying().(*types.Map)
+			if !ok {
+				return ""
+			}
+			switch e := mt.Elem().Underlying().(type) {
+			case *types.Pointer:
+				return "items"
+			case *types.Basic:
+				if e.Kind() == types.Bool {
+					return "marks"
+				}
+			}
+			return ""
+		}
+		items := g.Select(func(nd *Node) bool { return kindOf(nd) == "items" })
+		marks := g.Select(func(nd *Node) bool { return kindOf(nd) == "marks" })
+		if len(items) == 0 || len(marks) == 0 {
+			c.Unk(rule, "SaveToDisk ⟂ writes", genericName(fnName(fn)), "", fmt.Sprintf("anchor lost: %d item-file writes, %d mark-file writes in the cache saver", len(items), len(marks)))
+			continue
+		}
+		for i, it := range items {
+			it := it
+			n++
+			okEdge := g.Select(ErrNilEdge(func(t *Term) bool { return t.V == it.In.(ssa.Value) }))
+			inst := fmt.Sprintf("SaveToDisk ⟂ items-file-%d written before the marks", i+1)
+			if len(okEdge) == 0 {
+				// the result is returned directly (last write) or not checked
+				c.Bad(rule, inst, genericName(fnName(fn)), p.InstrPos(it.In), "the outcome of writing an items file is not tested before the function goes on: the marks can be written although the items were not", nil)
+				continue
+			}
+			c.Decide(rule, inst, genericName(fnName(fn)), p.InstrPos(it.In), "the marks are written only after this items file was written successfully",
+				"the file of seen-marks can be written before (or without) this file of items: a save interrupted in between leaves a mark whose item is gone — the sync loop refuses that header/data on every redelivery and the node never applies the height", g, g.MustPrecede(nodeSet(okEdge), nodeSet(marks)))
+		}
+		break // instantiations share the shape
+	}
+	if n == 0 {
+		c.Unk(rule, "anchor-count", "", "", "anchor lost: the cache saver was not found")
+	}
+}
+
+// ruleVerifyHookAdjacency (C04-R8): the last thing the production step does with a committed block
+// is to publish its header and its data through go-header, which verifies each new item against
+// the head of its own P2P store by calling the item type's Verify hook. After a crash (or a stop)
+// between the commit of block h and its publication that head is h-1 while the next item is h+1:
+// the hook is then asked about a non-adjacent pair. A hook that compares the "last hash" link for
+// such a pair fails, the publication fails, the production step returns that error and the node
+// halts — after every restart. Every Verify hook of the published types therefore compares the
+// link only under a test that the two heights are adjacent.
+func ruleVerifyHookAdjacency(c *Check, p *Prog, rule string) {
+	c.Doc(rule, "GA+siblings: every go-header Verify hook of the item types the producer publishes (signed header, data) rejects on a mismatch of the previous-hash link only under trusted.Height()+1 == untrusted.Height(): after a crash between commit and publication the library offers a non-adjacent pair, and a rejection there makes every later production step fail.")
+	tp := p.TypesPkg(rootPath + "/types")
+	if tp == nil {
+		c.Unk(rule, "types", "", "", "anchor lost: package types")
+		return
+	}
+	n := 0
+	for _, name := range tp.Scope().Names() {
+		tn, ok := tp.Scope().Lookup(name).(*types.TypeName)
+		if !ok {
+			continue
+		}
+		ms := types.NewMethodSet(types.NewPointer(tn.Type()))
+		var verify *types.Func
+		hasLast := false
+		for i := 0; i < ms.Len(); i++ {
+			f, _ := ms.At(i).Obj().(*types.Func)
+			if f == nil {
+				continue
+			}
+			sig := f.Type().(*types.Signature)
+			if f.Name() == "Verify" && sig.Params().Len() == 1 && sig.Results().Len() == 1 && types.Identical(sig.Params().At(0).Type(), types.NewPointer(tn.Type())) {
+				verify = f
+			}
+			if f.Name() == "LastHeader" {
+				hasLast = true
+			}
+		}
+		if verify == nil || !hasLast {
+			continue
+		}
+		fn := p.SSA.FuncValue(verify)
+		if fn == nil || fn.Blocks == nil || fn.Synthetic != "" {
+			continue
+		}
+		n++
+		g := BuildECFG(p, fn, ownPkgOpts(rootPath+"/types", 2))
+		c.NoteGraph(g)
+		recv, other := fn.Params[0].Name(), fn.Params[1].Name()
+		isLast := func(t *Term) bool {
+			return t.Contains(func(x *Term) bool {
+				if x.Op == "field" && strings.HasPrefix(x.Name, "Last") && strings.HasPrefix(x.String(), other+".") {
+					return true
+				}
+				return (x.Op == "call" || x.Op == "invoke") && strings.HasSuffix(x.Name, ").LastHeader") && len(x.Args) > 0 && strings.HasPrefix(x.Args[0].String(), other)
+			})
+		}
+		mismatch := g.Select(EdgeWhere(func(t *Term, pol bool, nd *Node) bool {
+			t, pol = normFact(t, pol)
+			return !pol && t.IsCall("bytes.Equal") && len(t.Args) == 2 && (isLast(t.Args[0]) || isLast(t.Args[1]))
+		}))
+		inst := tn.Name() + ".Verify ⟂ link compared only for adjacent heights"
+		if len(mismatch) == 0 {
+			c.OK(rule, inst, fnName(fn), p.Pos(fn.Pos()), "the hook does not compare the previous-hash link", true)
+			continue
+		}
+		isHeightOf := func(t *Term, who string) bool {
+			t = t.unconv()
+			return (t.Op == "call" || t.Op == "invoke") && strings.HasSuffix(t.Name, ").Height") && len(t.Args) > 0 && (t.Args[0].String() == who || strings.HasPrefix(t.Args[0].String(), who+"."))
+		}
+		adjacent := g.GuardEdges(func(t *Term, pol bool) bool {
+			a, op, b, ok := canonCmp(t, pol)
+			if !ok || op != "==" {
+				return false
+			}
+			plus1 := func(x *Term, who string) bool {
+				x = x.unconv()
+				return x.Op == "bin" && x.Name == "+" && x.Args[1].unconv().Name == "1" && isHeightOf(x.Args[0], who)
+			}
+			return (plus1(a, recv) && isHeightOf(b, other)) || (plus1(b, recv) && isHeightOf(a, other))
+		})
+		c.Decide(rule, inst, fnName(fn), p.InstrPos(mismatch[0].In), "a mismatch of the link is looked at only when the untrusted item is the direct successor",
+			"the hook rejects a mismatch of the previous-hash link also for non-adjacent heights: after a crash or stop between the commit of a block and its publication, the next item is offered against a head two behind, the publication fails with \"validation failed\", the production step returns the error and the node halts after every restart",
+			g, g.MustPrecede(nodeSet(adjacent), nodeSet(mismatch)))
+	}
+	if n < 2 {
+		c.Unk(rule, "anchor-count", "", "", fmt.Sprintf("anchor lost: %d Verify hooks of published item types found (signed header and data expected)", n))
+	}
+}
+
+// rulePublisherSeedsEmptyStore (C04-R9): the publisher starts go-header's syncer on first use, and
+// the syncer needs a head in the P2P store. The store is seeded by Init. A sequencer that was
+// stopped after committing its first block and before publishing it restarts with an empty P2P
+// store and a later height to publish: if the store is seeded only for the item at the initial
+// height, the syncer cannot start ("no chain head"), the publication fails, the production step
+// returns the error and the node halts — after every restart. So every path of the publisher to
+// the start of the syncer passes a successful Init of the store or a test showing the store is
+// not empty.
+func rulePublisherSeedsEmptyStore(c *Check, p *Prog, rule string) {
+	c.Doc(rule, "EO+GA: in the P2P publisher the syncer is started only after the P2P store was seeded successfully (Init) or found non-empty — whatever the height of the item being published (a crash between the commit of the first block and its publication leaves the store empty for good).")
+	n := 0
+	for _, fn := range p.GenericReps("(*" + rootPath + "/pkg/sync.SyncService[_]).WriteToStoreAndBroadcast") {
+		g := BuildECFG(p, fn, ExpandOpts{MaxDepth: 0})
+		c.NoteGraph(g)
+		starts := g.Select(func(nd *Node) bool {
+			return strings.HasSuffix(genericName(CallName(nd)), "SyncService[_]).StartSyncer")
+		})
+		if len(starts) == 0 {
+			c.Unk(rule, "publisher ⟂ StartSyncer", genericName(fnName(fn)), "", "anchor lost: the publisher does not start the syncer")
+			break
+		}
+		n++
+		initOK := g.Select(ErrNilEdge(func(t *Term) bool { return (t.Op == "invoke" || t.Op == "call") && strings.HasSuffix(t.Name, ").Init") }))
+		isHeight := func(t *Term) bool {
+			t = t.unconv()
+			return (t.Op == "invoke" || t.Op == "call") && strings.HasSuffix(t.Name, ").Height") && len(t.Args) > 0 && strings.HasSuffix(t.Args[0].String(), ".store")
+		}
+		nonEmpty := g.GuardEdges(func(t *Term, pol bool) bool {
+			a, op, b, ok := canonCmp(t, pol)
+			if !ok {
+				return false
+			}
+			// 0 < store.Height()   or   store.Height() != 0
+			return (op == "<" && a.unconv().Name == "0" && isHeight(b)) || (op == "!=" && ((isHeight(a) && b.unconv().Name == "0") || (isHeight(b) && a.unconv().Name == "0")))
+		})
+		c.Decide(rule, "publisher ⟂ store seeded before the syncer starts", genericName(fnName(fn)), p.InstrPos(starts[0].In), "the syncer is started only after Init succeeded or the store was found non-empty",
+			"the syncer can be started over an empty P2P store (the store is seeded only for the item at the initial height): a sequencer stopped between the commit of its first block and its publication fails every later publication with \"no chain head\" and halts after every restart",
+			g, g.MustPrecede(orPred(nodeSet(initOK), nodeSet(nonEmpty)), nodeSet(starts)))
+		break
+	}
+	if n == 0 {
+		c.Unk(rule, "anchor-count", "", "", "anchor lost: the P2P publisher was not found")
+	}
 }
